@@ -30,6 +30,16 @@ add("C04", "vf-sim", "stateful property-based testing in a deterministic simulat
 add("C05", "vf-sim", "stateful property-based testing in a deterministic simulator over per-stream histories (write/empty write/vectored/shutdown/drop/read) with an end-of-stream oracle on the history",
     "EOF must be preceded by the peer's shutdown/drop (or connection end) and by all bytes written before it; writes after local shutdown or a processed peer abort must fail with BrokenPipe; no Push after Finish on the wire; no write error while only the peer half-closed. A directed family places an empty write of every flavour at every position.", SIM_NOTE)
 
+add("C06", "vf-sim", "stateful property-based testing in a deterministic simulator: open/close cycle histories with scripted flow-id generators and a reference model of held ids replayed against the wire",
+    "Rounds of open/close cycles (all orders of write/shutdown/drop/read on both ends) separated by quiescent points; flow ids come from a scripted generator so that a freed id is proposed again; a model of which ids each endpoint may still hold is replayed against the Connect frames: a freed id must be chosen again by its owner and acknowledged by the peer (no leaked slot on either side), the new stream must carry only its own data and credit (C02/C03/C05 oracles), bystander streams must be undisturbed, aborted streams must deliver EOF/BrokenPipe to the peer. A raw-peer family probes the slot directly with a second Connect.",
+    SIM_NOTE + " Ids are reused only after both applications let go and a quiescent point passed (the property's precondition).")
+add("C07", "vf-sim", "stateful property-based testing in a deterministic simulator with scripted flow-id generators (forced collisions) and a scripted raw peer; small matrix enumerated for the initial credit",
+    "Concurrent opens from both sides with arbitrary host bytes/ports, retries 1..4 and id scripts over {0,1,2,3}: one successful request = exactly one accepted stream with the requested host/port, never id 0 or a live id in a Connect, Reset for id 0, retry arithmetic exact against a raw peer that rejects the first k Connects (min(k+1,retries) attempts, FlowIdRejected iff k >= retries), initial credit equals the advertised window for all 64 window pairs.", SIM_NOTE)
+add("C11", "vf-sim", "property-based testing in a deterministic simulator over the full datagram field domain with a subsequence oracle and buffer-overflow model",
+    "Datagrams with every field at its boundaries are sent in bursts relative to datagram_buffer_size to eager/idle/intermittent receivers next to stream traffic: long hosts are refused with nothing on the wire, the received list is a subsequence of the sent list with all fields equal, loss only when the buffer overflowed (idle receiver: exactly the first `capacity`), the connection never ends and streams complete.", SIM_NOTE)
+add("C15", "vf-sim", "stateful property-based testing in a deterministic simulator: concurrent bind requests, permuted answers, teardown races; reuse probe with a scripted flow-id generator",
+    "1-6 concurrent bind requests from either side with responder policies accept/reject/drop/hold answered in batches in generated order, binds disabled, optional connection end: each request resolves at most once (exactly once unless legitimately held), true iff the peer application accepted that very request, the responder sees exactly the requested type/host/port/flow id, and the id is proposed again by the next open.", SIM_NOTE)
+
 ENG = {
  "vf-pure": ("/verif/harness/vf-pure", "proptest + bounded-exhaustive enumeration against reference codecs/models (E1)"),
  "vf-sim": ("/verif/harness/vf-sim", "simnet: deterministic simulator around the real penguin-mux crate (E2) and tokio paused-clock engine (E3)"),
